@@ -396,12 +396,17 @@ type Search struct {
 }
 
 func DefaultConfig(property string) Config {
-	cfg := Config{Property: property, Pools: IDPools(), Topics: []string{"t0", "t1", "t2"}}
-	cfg.Budget = ev.Deadline(45*time.Second, 9*time.Minute)
+	cfg := Config{Property: property, Pools: IDPools(), Topics: []string{"t0", "t1", "t2", "t3"}}
+	cfg.Budget = ev.Deadline(52*time.Second, 9*time.Minute)
 	cfg.WidePool = []string{"a", "b", "c", "d", "e", "f"}
-	cfg.Wide = []Bounds{{MaxMembers: 6, MaxTopics: 1, MaxParts: 14, R: 3}, {MaxMembers: 5, MaxTopics: 2, MaxParts: 4, R: 3}}
+	// the last entries: four members over three topics of DIFFERENT sizes (three load levels among members with subscriptions
+	// of different sizes need that much room)
+	cfg.Wide = []Bounds{{MaxMembers: 6, MaxTopics: 1, MaxParts: 14, R: 3}, {MaxMembers: 5, MaxTopics: 2, MaxParts: 4, R: 3},
+		{MaxMembers: 4, MaxTopics: 3, MaxParts: 5, FixedParts: []int{2, 4, 5}, R: 3}}
 	if ev.Tier() == "thorough" {
-		cfg.Wide = []Bounds{{MaxMembers: 6, MaxTopics: 1, MaxParts: 20, R: 10}, {MaxMembers: 6, MaxTopics: 2, MaxParts: 5, R: 5}}
+		cfg.Wide = []Bounds{{MaxMembers: 6, MaxTopics: 1, MaxParts: 20, R: 10}, {MaxMembers: 6, MaxTopics: 2, MaxParts: 5, R: 5},
+			{MaxMembers: 4, MaxTopics: 3, MaxParts: 5, FixedParts: []int{2, 4, 5}, R: 5}, {MaxMembers: 4, MaxTopics: 3, MaxParts: 5, FixedParts: []int{1, 3, 5}, R: 5},
+			{MaxMembers: 4, MaxTopics: 3, MaxParts: 6, FixedParts: []int{6, 2, 3}, R: 5}}
 	}
 	if ev.Tier() == "thorough" {
 		cfg.Stateless = Bounds{MaxMembers: 3, MaxTopics: 3, MaxParts: 4, R: 10}
@@ -411,6 +416,8 @@ func DefaultConfig(property string) Config {
 			{"3topics-2parts", Bounds{MaxMembers: 3, MaxTopics: 3, MaxParts: 2, Depth: 3, DFSDepth: 1, R: 10}, 30, nil},
 			{"3topics-3parts", Bounds{MaxMembers: 3, MaxTopics: 3, MaxParts: 3, Depth: 1, DFSDepth: 0, R: 10}, 25, nil},
 			{"5members-5x10", Bounds{MaxMembers: 5, MaxTopics: 2, MaxParts: 10, FixedParts: []int{5, 10}, Light: true, MinMembers: 4, MaxEvals: 6, Depth: 1, DFSDepth: -1, R: 3}, 20, []string{"a", "b", "c", "d", "e"}},
+			{"compound-4x8x4", Bounds{MaxMembers: 3, MaxTopics: 3, MaxParts: 8, FixedParts: []int{4, 8, 4}, Light: true, Compound: true, CompoundSub: true, MinMembers: 2, MaxEvals: 6, Depth: 2, DFSDepth: -1, R: 3}, 10, []string{"a", "b", "c"}},
+			{"compound-4x8x4x4", Bounds{MaxMembers: 3, MaxTopics: 4, MaxParts: 8, FixedParts: []int{4, 8, 4, 4}, Light: true, Compound: true, CompoundSub: true, MinMembers: 2, MaxEvals: 6, Depth: 1, DFSDepth: -1, R: 3}, 20, []string{"a", "b", "c"}},
 		}
 	} else {
 		cfg.Stateless = Bounds{MaxMembers: 3, MaxTopics: 3, MaxParts: 3, R: 3}
@@ -418,6 +425,15 @@ func DefaultConfig(property string) Config {
 			{"2topics-3parts", Bounds{MaxMembers: 3, MaxTopics: 2, MaxParts: 3, Depth: 3, DFSDepth: 1, R: 3}, 45, nil},
 			{"3topics-2parts", Bounds{MaxMembers: 3, MaxTopics: 3, MaxParts: 2, Depth: 2, DFSDepth: 0, R: 3}, 55, nil},
 			{"5members-5x10", Bounds{MaxMembers: 5, MaxTopics: 2, MaxParts: 10, FixedParts: []int{5, 10}, Light: true, MinMembers: 4, MaxEvals: 6, Depth: 1, DFSDepth: -1, R: 3}, 40, []string{"a", "b", "c", "d", "e"}},
+			{"compound-4x8x4", Bounds{MaxMembers: 3, MaxTopics: 3, MaxParts: 8, FixedParts: []int{4, 8, 4}, Light: true, Compound: true, CompoundSub: true, MinMembers: 2, MaxEvals: 6, Depth: 1, DFSDepth: -1, R: 3}, 20, []string{"a", "b", "c"}},
+		}
+	}
+	if property == "C08" {
+		// a subscription that names a topic twice is a legal argument of Consume; validity (C08) is judged on it, the size
+		// clauses of C13 are not (a member listed twice for a topic is not "a set of subscribers")
+		cfg.Stateless.DupSubs = true
+		for i := range cfg.Wide {
+			cfg.Wide[i].DupSubs = true
 		}
 	}
 	if v := os.Getenv("VERIF_BAL_BOUNDS"); v != "" { // members,topics,parts,depth,dfsdepth,R: ONE family (experiments only)
@@ -429,9 +445,11 @@ func DefaultConfig(property string) Config {
 				n, _ := strconv.Atoi(x)
 				cfg.Families[0].B.FixedParts = append(cfg.Families[0].B.FixedParts, n)
 			}
-			cfg.Families[0].Pool = []string{"a", "b", "c", "d", "e"}
+			cfg.Families[0].Pool = []string{"a", "b", "c", "d", "e"}[:cfg.Families[0].B.MaxMembers]
 			cfg.Families[0].B.Light = true
-			cfg.Families[0].B.MinMembers, cfg.Families[0].B.MaxEvals = 4, 6
+			cfg.Families[0].B.MinMembers, cfg.Families[0].B.MaxEvals = cfg.Families[0].B.MaxMembers-1, 6
+			cfg.Families[0].B.Compound = os.Getenv("VERIF_BAL_COMPOUND") != ""
+			cfg.Families[0].B.CompoundSub = os.Getenv("VERIF_BAL_COMPOUND") == "2"
 		}
 	}
 	return cfg
@@ -474,9 +492,24 @@ func (s *Search) finding(f findRec, path string, how string) {
 func boundsMap(b Bounds, sticky bool) map[string]interface{} {
 	m := map[string]interface{}{"max_members": b.MaxMembers, "max_topics": b.MaxTopics, "max_partitions_per_topic": b.MaxParts,
 		"R_min_evaluations_per_case": b.R, "max_evaluations_per_case": capEvals(b)}
+	if len(b.FixedParts) > 0 {
+		m["fixed_partition_counts"] = b.FixedParts
+	}
+	if b.DupSubs {
+		m["first_plan_variants"] = "plain; every member names its first topic twice; the first member does"
+	}
 	if sticky {
 		m["chain_depth_events_after_first_plan"] = b.Depth
 		m["differential_dfs_depth"] = b.DFSDepth
+		if b.Light {
+			m["events"] = "membership only (fresh join with any subscription, leave)"
+		}
+		if b.Compound {
+			m["compound_events"] = "two changes in one rebalance: (topic deleted | member leaves) + a fresh member joins with any subscription"
+			if b.CompoundSub {
+				m["compound_events"] = "two changes in one rebalance: (topic deleted | member leaves | member changes its subscription) + a fresh member joins with any subscription"
+			}
+		}
 	}
 	return m
 }
